@@ -746,7 +746,7 @@ theorem decField (X : String → TfVal → Prop) (ov : List (String × String)) 
             Or.inr ⟨xs, hx, hndx, fun e he' => (hall e he').1⟩⟩
         · unfold RTOK
           simp only [hk]
-          refine ⟨ho, he, hEm, hphk, hvt, hph, hnn, hmv, ?_, k, hir.rt, ?_⟩
+          refine ⟨ho, he, hEm, hphk, hvt, hph, hmv, ?_, k, hir.rt, ?_⟩
           · rw [hx]; exact hndx
           · rw [hx]; exact fun e he' => (hall e he').2
       · unfold DecRel
